@@ -1,6 +1,7 @@
 (* CApiReadProofs.v — proofs about CApiRead.v, part 1: the callback adapter is a cursor
    (Refines) when the callbacks are; sorting; the file-callback loop; delivery into the
    callback writers; what a failing / NULL callback does. *)
+From MLA Require Import Limit.
 From MLA Require Import Base Stream Blocks Reader LinearRoundTripDefs CApi CApiProofs CApiRead.
 From Coq Require Import ZifyBool ZifyNat ZifyN Permutation Sorted.
 Open Scope N_scope.
